@@ -13,6 +13,7 @@ import (
 	"io"
 	"math"
 	"strconv"
+	"sync/atomic"
 	"time"
 
 	"github.com/tsuna/gohbase/hrpc"
@@ -350,10 +351,20 @@ func (c *client) SendBatch(ctx context.Context, batch []hrpc.Call) (
 		}
 		if needBackoff {
 			sp.AddEvent("retrySleep")
-			var err error
-			backoff, err = sleepAndIncreaseBackoff(ctx, backoff)
+			// Sleep no longer than it takes for the contexts of all the
+			// calls we are going to retry to end: if none of them can be
+			// retried any more there is nothing to wait for.
+			sleepCtx, stop := retryContext(ctx, retries)
+			next, err := sleepAndIncreaseBackoff(sleepCtx, backoff)
+			stop()
 			if err != nil {
-				break
+				if ctx.Err() != nil {
+					break
+				}
+				// only the calls' own contexts have ended: the next
+				// round reports that for each of them
+			} else {
+				backoff = next
 			}
 		} else {
 			sp.AddEvent("retry")
@@ -365,6 +376,27 @@ func (c *client) SendBatch(ctx context.Context, batch []hrpc.Call) (
 	}
 
 	return res, allOK
+}
+
+// retryContext returns a context that ends when ctx ends or when the
+// contexts of all the given calls have ended, and a function to release it.
+func retryContext(ctx context.Context, rpcs []hrpc.Call) (context.Context, func()) {
+	sleepCtx, cancel := context.WithCancel(ctx)
+	remaining := int32(len(rpcs))
+	stops := make([]func() bool, 0, len(rpcs))
+	for _, rpc := range rpcs {
+		stops = append(stops, context.AfterFunc(rpc.Context(), func() {
+			if atomic.AddInt32(&remaining, -1) == 0 {
+				cancel()
+			}
+		}))
+	}
+	return sleepCtx, func() {
+		for _, stop := range stops {
+			stop()
+		}
+		cancel()
+	}
 }
 
 // findClients takes a batch of rpcs and discovers the region and
